@@ -344,9 +344,12 @@ pub fn judge(rep: &mut Report, reg: &Registry, obs: &Observed, ctx: &str, expect
     }
 }
 
-async fn group(args: &Args, multi: bool, relay: bool, rep: &mut Report, gi: u64) {
-    let ctx = format!("rt={} relay={relay}", if multi { "multi" } else { "current" });
-    let pair = match ends::pair(PairOpts { server_transport: Some(small_window_transport()), client_transport: Some(small_window_transport()), relay }).await {
+async fn group(args: &Args, multi: bool, relay: bool, library_defaults: bool, rep: &mut Report, gi: u64) {
+    let ctx = format!("rt={} relay={relay}{}", if multi { "multi" } else { "current" }, if library_defaults { " transport=library-defaults" } else { "" });
+    // one group runs on endpoints built without any custom transport: the library's own windows,
+    // stream limits and timers, not the harness's
+    let made = if library_defaults { ends::pair_library_defaults().await } else { ends::pair(PairOpts { server_transport: Some(small_window_transport()), client_transport: Some(small_window_transport()), relay }).await };
+    let pair = match made {
         Ok(p) => p,
         Err(e) => {
             rep.inconclusive(format!("{ctx}: {e}"));
@@ -362,12 +365,12 @@ async fn group(args: &Args, multi: bool, relay: bool, rep: &mut Report, gi: u64)
     let mut acc = spawn_acceptors(pair.sconn.clone(), DIR_C2S, reg.clone(), obs.clone(), args.seed ^ gi);
     acc.extend(spawn_acceptors(pair.cconn.clone(), DIR_S2C, reg.clone(), obs.clone(), args.seed ^ gi ^ 0x55));
 
-    let n_streams: u64 = match (args.thorough, relay) {
+    let n_streams: u64 = if library_defaults { if args.thorough { 250 } else { 60 } } else { match (args.thorough, relay) {
         (true, false) => 700,
         (true, true) => 250,
         (false, false) => 110,
         (false, true) => 50,
-    };
+    } };
     let concurrency_levels: &[usize] = if args.thorough { &[1, 2, 16, 100] } else { &[1, 16, 60] };
     let mut tag = gi << 32;
     let mut opened = 0u64;
@@ -694,10 +697,10 @@ async fn credit_squeeze(args: &Args, rep: &mut Report) {
 
 pub fn run(args: &Args) -> Report {
     let mut rep = Report::new();
-    let groups: Vec<(bool, bool)> = if args.thorough { vec![(true, false), (false, false), (true, true), (false, true)] } else { vec![(true, false), (false, false), (true, true)] };
-    for (gi, (multi, relay)) in groups.into_iter().enumerate() {
+    let groups: Vec<(bool, bool, bool)> = if args.thorough { vec![(true, false, false), (false, false, false), (true, true, false), (false, true, false), (true, false, true), (false, false, true)] } else { vec![(true, false, false), (false, false, false), (true, true, false), (true, false, true)] };
+    for (gi, (multi, relay, defaults)) in groups.into_iter().enumerate() {
         let rt = crate::runtime(multi, 4);
-        rt.block_on(group(args, multi, relay, &mut rep, gi as u64 + 1));
+        rt.block_on(group(args, multi, relay, defaults, &mut rep, gi as u64 + 1));
         rt.shutdown_timeout(Duration::from_millis(200));
     }
     let rt = crate::runtime(true, 4);
